@@ -20,12 +20,14 @@ RULE = ("(a) units: LogLikelihoods.logsumexp on vectors of length 0-12 with -inf
         "strings, populations, mutation times), 15% with tied node times; (c) oracle: explicit prior rows or a prior built "
         "by tsdate.build_prior_grid (exact / approximate / gamma, 4-20 timepoints, allow_unary), on 30% ONE priors "
         "object reused by all four calls; thorough: 10 larger inputs (12-25 samples); plus a 'steep dynamic range "
-        "without underflow' family (oracle only, 40 quick / 300 thorough): the reported 3-leaf shape, every shape with 3-5 "
+        "without underflow' family (oracle only, 48 quick / 150 thorough): the reported 3-leaf shape, every shape with 3-5 "
         "leaves and msprime trees with very unbalanced per-edge mutation counts (0 on most internal edges, 50-300 on some "
         "sample edges), mutation_rate x span x grid range in {20,40,80,150}, uniform and random grids of 5-25 timepoints, "
         "eps in {0,1e-8,1e-3,1e-2}, explicit or built priors, both methods; a case counts only if every finite quantity of "
         "the LOGARITHMIC run (inside, outside, likelihood, edge likelihood tables) lies in [log 1e-250, log 1e250], "
-        "otherwise it is outside the premise and only tallied (about half are in the premise); the public "
+        "otherwise it is outside the premise and only tallied (about half are in the premise); a third of the family "
+        "are multi-parent nodes (2-4 trees) with 50-300 mutations on every parent edge and none below, judged for "
+        "maximization with a node-level premise (winning score and every edge's largest likelihood above 1e-250); the public "
         "inside_outside and maximization functions run in both spaces on the same input. A case is non-trivial "
         "when the input has mutations and >= 2 internal nodes; distinct by content hash."
         "About half of the inputs carry 1-3 extra mutations that sit on NO edge (above the root of the local tree; valid tskit input); the references count only mutations on edges, computed from the tables.")
@@ -219,7 +221,20 @@ def gen_steep(ctx, n):
                 d.pop(key, None)
             kind = "steep/msprime"
         d = D.canon(d)
-        if k % 5 == 0 and kind == "steep/demo-shape":
+        heavy_rate = None
+        if k % 3 == 2:
+            # heavy load on multi-parent nodes (2-4 trees): 50-300 mutations on each parent edge, none below
+            d = D.multiparent_family(rng) if rng.random() < 0.6 else D.canon(dict(D.sim_dict(rng, n=rng.randint(3, 6)), sites=[], mutations=[], **{}))
+            for key in ("site_anc", "mut_der", "mut_time"):
+                d.pop(key, None)
+            d = D.canon(d)
+            kind = "steep/heavy-multiparent"
+        if kind == "steep/heavy-multiparent":
+            heavy_rate = rng.choice([0.5, 1.0, 3.0, 10.0])
+            # pmf(k; rate) stays above 1e-250 up to about k = 150 (rate 1) .. 230 (rate 10); a fifth go beyond
+            cap = {0.5: 140, 1.0: 150, 3.0: 185, 10.0: 230}[heavy_rate]
+            counts, _nm = D.heavy_parent_counts(rng, d, 50, 300 if rng.random() < 0.2 else cap)
+        elif k % 5 == 0 and kind == "steep/demo-shape":
             counts = [100 if (d["nodes_flags"][c] and p == max(e[2] for e in d["edges"])) else 0
                       for _l, _r, p, c in d["edges"]]          # the reported example: 100 mutations on the root's sample edge
         else:
@@ -235,6 +250,8 @@ def gen_steep(ctx, n):
             if len(set(grid)) < G:
                 grid = [float(x) for x in np.linspace(0, T, G)]
         product = rng.choice([20, 40, 80, 150])
+        if kind == "steep/heavy-multiparent":
+            product = heavy_rate * d["L"]      # few expected mutations: the load is far above the clock
         mu = product / (d["L"] * T)
         o = D.random_options(rng, ctx.tier == "thorough")
         o["num_threads"] = None
@@ -385,19 +402,26 @@ def oracle_case(ctx, case, stats):
         return
     steep = bool(case.get("steep"))
     moderate = log_moderate(log, strict=steep)
+    skip_io = False
     if steep:
         if not moderate:
-            # outside the premise of the property (something leaves the double range): only counted
+            # outside the premise of the property (something leaves the double range): only counted;
+            # the maximisation part below has its own, node-level premise
             ctx.tally("steep/outside-premise")
-            return
-        ctx.tally("steep/in-premise")
-    if elin is not None:
+            skip_io = True
+        else:
+            ctx.tally("steep/in-premise")
+    if elin is not None and skip_io:
+        lin = None
+    elif elin is not None:
         if moderate:
             ctx.oracle_fail("exception:" + type(elin).__name__,
                             "inside_outside (linear) raised %r although no logarithmic value is below -600" % (elin,), rp)
             return
         ctx.tally("skipped/linear-underflow-exception")
-    if lin is not None and (underflow(lin["inside"], log["inside"]) or underflow(lin["outside"], log["outside"])
+    if skip_io:
+        pass
+    elif lin is not None and (underflow(lin["inside"], log["inside"]) or underflow(lin["outside"], log["outside"])
                             or not lin["lik"] > 1e-290) and not moderate:
         ctx.tally("skipped/linear-underflow")
     elif lin is not None:
@@ -450,8 +474,19 @@ def oracle_case(ctx, case, stats):
         # numerically tied timepoints may be broken differently: the log-space choice must satisfy the
         # documented rule evaluated in linear space up to 1e-9, and vice versa
         il = D.grid_index(mlin["grid"], mlog["pm"])
-        bad = D.rule_check(dict(direct(case), space=D.LIN, grid=mlin["grid"]), mlin["inside"], il, tol=1e-9) \
+        info = {}
+        lcase = dict(direct(case), space=D.LIN, grid=mlin["grid"])
+        # a genuine tie: BOTH choices satisfy the documented rule (evaluated in log space from the linear run's
+        # inside values) up to 1e-9
+        bad = D.rule_check(lcase, mlin["inside"], il, tol=1e-9, info=info, lo=D.LOG_LO) \
             if None not in il else [("?", "off grid")]
+        ilin = D.grid_index(mlin["grid"], mlin["pm"])
+        bad += D.rule_check(lcase, mlin["inside"], ilin, tol=1e-9, info=info, lo=D.LOG_LO) \
+            if None not in ilin else [("?", "off grid (linear)")]
+        if not bad and info.get("outside_premise"):
+            # the spaces differ only at nodes where the unchanged linear algorithm itself underflows
+            ctx.tally("skipped/maximization-linear-underflow-at-node")
+            return
         if bad:
             ctx.oracle_fail("maximization-spaces-differ",
                             "maximization picks %r in linear and %r in logarithmic space (no tie: %r)"
@@ -466,7 +501,7 @@ def run(ctx, model_ok=True):
     if model_ok:
         D.check_float_funs(ctx)
     units(ctx, model_ok)
-    cases = gen_cases(ctx, ctx.n(12, 150), ctx.n(20, 200)) + gen_steep(ctx, ctx.n(40, 300))
+    cases = gen_cases(ctx, ctx.n(12, 150), ctx.n(20, 200)) + gen_steep(ctx, ctx.n(48, 150))
     # (b) whole runs, both classes against the model
     if model_ok:
         both = []
